@@ -5,10 +5,13 @@
    points, all profiles, all outside values and either sign of psi_lcfs - psi_axis. *)
 Require Import Cherab.Common.Qx.
 From Coq Require Import Reals.
+Require Import Cherab.Model.C07_Cubic.
 Require Import Cherab.Model.C12_Equilibrium Cherab.Model.C12_Gradient Cherab.Model.C12_Interp Cherab.Model.C12_Profile
-               Cherab.Model.C12_Polygon Cherab.Model.C12_Real Cherab.Model.C12_Source.
+               Cherab.Model.C12_Polygon Cherab.Model.C12_Real Cherab.Model.C12_Source Cherab.Model.C12_Cubic.
 Require Import Cherab.Proofs.C12_Equilibrium Cherab.Proofs.C12_Axisymmetry Cherab.Proofs.C12_Gradient Cherab.Proofs.C12_Interp
-               Cherab.Proofs.C12_More Cherab.Proofs.C12_Policy Cherab.Proofs.C12_Real Cherab.Proofs.C12_Source.
+               Cherab.Proofs.C12_More Cherab.Proofs.C12_Policy Cherab.Proofs.C12_Real Cherab.Proofs.C12_Source
+               Cherab.Proofs.C12_Bridge Cherab.Proofs.C12_Cubic.
+From Coq Require Import Qreals.
 Open Scope Q_scope.
 
 (* normalised flux is never negative *)
@@ -299,6 +302,64 @@ Theorem C12_source_patterns_cover_all_vectors :
             veq (ev_pattern (s_f2c_pol s) b) (pol_raw b) /\ veq (ev_pattern (s_f2c_nor s) b) (nor_raw b).
 Proof. exact source_ok_patterns. Qed.
 Print Assumptions C12_source_patterns_cover_all_vectors.
+
+(* ---- Q -> R bridge: the C12_real_* theorems are about the MODEL's own rational field vector.  At every point
+   with a non-vanishing in-plane field, rb = Q2R (b_field E r z) satisfies the guard of the real mirror; the
+   model's poloidal / normal vectors are the real unit vectors of rb times sqrt(a)/s (s = the value the model's
+   sqrt function returned); the model's mapped velocity has, in that real orthonormal basis, the components
+   vt, vp sqrt(a)/sp, vn sqrt(a)/sn, i.e. exactly (vt, vp, vn) when s is the real root *)
+Theorem C12_model_real_bridge :
+  forall E r z (vt vp vn : Q -> Q),
+  let b := b_field E r z in let rb := v2r b in
+  let sp := e_sqrt E (pol_arg b) in let sn := e_sqrt E (nor_arg b) in
+  inplane_zero b = false ->
+  (rx rb <> 0 \/ rz rb <> 0)%R /\
+  (~ sp == 0 -> ~ sn == 0 ->
+   (exists p n, poloidal_vector E r z = Some p /\ surface_normal E r z = Some n /\
+      v2r p = rscale_r (rpoloidal rb) (sqrt (Q2R (pol_arg b)) / Q2R sp) /\
+      v2r n = rscale_r (rnormal rb) (sqrt (Q2R (nor_arg b)) / Q2R sn)) /\
+   (exists v, flux_to_cart E vt vp vn r z = Some v /\
+      rdot (v2r v) rtor = Q2R (vt (psi_n E r z)) /\
+      rdot (v2r v) (rpoloidal rb) = (Q2R (vp (psi_n E r z)) * (sqrt (Q2R (pol_arg b)) / Q2R sp))%R /\
+      rdot (v2r v) (rnormal rb) = (Q2R (vn (psi_n E r z)) * (sqrt (Q2R (nor_arg b)) / Q2R sn))%R /\
+      (Q2R sp = sqrt (Q2R (pol_arg b)) -> Q2R sn = sqrt (Q2R (nor_arg b)) ->
+       rdot (v2r v) (rpoloidal rb) = Q2R (vp (psi_n E r z)) /\ rdot (v2r v) (rnormal rb) = Q2R (vn (psi_n E r z))))).
+Proof.
+  intros E r z vt vp vn b rb sp sn Hb. split; [apply inplane_nonzero_real; exact Hb|].
+  intros Zp Zn. split; [apply model_basis_is_scaled_real_basis; assumption|].
+  apply model_velocity_real_components; assumption.
+Qed.
+Print Assumptions C12_model_real_bridge.
+
+(* the rotation of the model commutes with the embedding when (c, s) are the cosine and sine of an angle *)
+Theorem C12_model_rotation_is_real_rotation :
+  forall c s v phi, Q2R c = cos phi -> Q2R s = sin phi -> v2r (rotate_z_apply c s v) = rrotate phi (v2r v).
+Proof. exact v2r_rotate. Qed.
+Print Assumptions C12_model_rotation_is_real_rotation.
+
+(* an accepted 2xN array profile is raysect's 1-D cubic (Model/C07_Cubic.v) of the array as given: it passes
+   through every knot, and the mapped function returns the knot's value wherever psi_n is that knot inside the
+   LCFS, the outside value outside *)
+Theorem C12_array_profile_through_knots :
+  forall a xs ys, convert a = AcceptArray xs ys ->
+  forall i, (i < length xs)%nat ->
+  array_profile xs ys (nth i xs 0) == nth i ys 0 /\
+  (forall E outside r z, psi_n E r z == nth i xs 0 ->
+     (inside_b E r z = true -> map2d E (array_profile xs ys) outside r z == nth i ys 0) /\
+     (inside_b E r z = false -> map2d E (array_profile xs ys) outside r z = outside)).
+Proof.
+  intros a xs ys Hc i Hi. split; [apply (array_profile_through_knots a xs ys i Hc Hi)|].
+  intros E outside r z Hp. apply (map2d_array_at_knot E a xs ys outside r z i Hc Hi Hp).
+Qed.
+Print Assumptions C12_array_profile_through_knots.
+
+(* raysect's 1-D cubic (the profile interpolant) is affine in its data -- its weights depend on the knots only
+   and sum to one -- and reproduces constants: mapped values scale and shift with the profile values *)
+Theorem C12_cubic_profile_affine :
+  forall n (k v : nat -> Q) a c x,
+  cubic1 n k (fun j => a * v j + c) x == a * cubic1 n k v x + c /\ cubic1 n k (fun _ => c) x == c.
+Proof. intros. split; [apply cubic1_affine | apply cubic1_const]. Qed.
+Print Assumptions C12_cubic_profile_affine.
 
 (* the grids handed to the d psi interpolators (np.gradient with edge_order=2 divided by the gradient
    of the axis): exact derivative of every quadratic on a uniform axis, at every node, for every n >= 3 *)
